@@ -224,7 +224,12 @@ extern "C" int LLVMFuzzerTestOneInput( const std::uint8_t* data, std::size_t siz
     const Case c = decode( data, size );
     if ( decode_only )
     {
-        std::cout << c31::to_text( c ) << std::flush;
+        // libFuzzer executes a file given on the command line more than once
+        static std::string last;
+        const std::string  text = c31::to_text( c );
+        if ( text != last )
+            std::cout << text << std::flush;
+        last = text;
         return 0;
     }
     verif::Report rep;
